@@ -7,6 +7,11 @@ are evaluated three ways:
   ref     harness/evalref.py, a plain-Python transcription of the documented meaning (no yaql),
   model   the compiled Lean reference interpreter Yaql.Eval.run (the theorems are about it).
 Relation: equal finalised result, or the same exception class.
+Names (variables, keyword arguments, def-ined functions, dict keys) are drawn from pools that a naming convention, a case
+fold or a sloppy lexer would rewrite, together with the names they would be rewritten into; half of the programs run
+inside a short evaluation HISTORY on one engine (a reused Statement on another document; the SAME host document object
+evaluated, updated in place by the host, evaluated again - same or freshly parsed Statement) and the LAST result is
+the one compared.
 Oracle (failing input): real differs from ref and the model does not side with real.
 Mismatch (tie broken): the model differs from real although ref agrees with real (a slip in the
 model), or ref is the odd one out (a slip in the transcription)."""
@@ -27,7 +32,8 @@ LEAN_MODULES = ['Yaql.Props.C04']
 REQUIRED_THEOREMS = ['Yaql.Props.C04.' + n for n in (
     'frame frame_root sibling_independence shadowing shadowing_let unknown_null dollar_alias lambda_binds_innermost '
     'lambda_dollar get_argFrame with_numbering closure_lexical closure_lexical_args ucall_eq no_leak_arg no_leak_lambda '
-    'no_leak_callee member_maps fuel_mono empty_frame_invisible').split()]
+    'no_leak_callee member_maps fuel_mono empty_frame_invisible let_names_verbatim let_other_name kwarg_names_verbatim '
+    'def_names_verbatim normName_inj_plain').split()]
 TRUSTED = ['harness/evalref.py (plain-Python transcription of the language reference, second opinion for every case)',
            'harness/evalgen.py: the renderer AST -> yaql text (every generated text is parsed back by the engine under '
            'test and compared with the AST that goes to the model)']
@@ -35,6 +41,8 @@ ASSUMPTIONS = ['documents are JSON-like: null / bool / int / str, lists, dicts w
                'functions of the fragment: let with def unpack list dict select where selectMany orderBy orderByDescending '
                'takeWhile skipWhile indexWhere toDict aggregate sum first toList take skip get len any all; operators '
                '+ - * = != < <= > >= and or not unary-; anything else is outside the model',
+               'function names are identified up to trailing underscores (documented: "all trailing underscores are stripped '
+               'from the names"); every other name is data',
                'out of domain (skipped, counted): a variable holding a one-shot iterator read back, lazy sequences that '
                'raise / orderings / context objects stored inside data, operators applied to lazy sequences, keyword '
                'arguments of builtins, recursion deeper than the fuel']
@@ -88,29 +96,135 @@ def perturb(v):
     return v
 
 
+# ---- a host that keeps ONE document object and updates it in place between evaluations
+
+def earlier(rng, v):
+    """an earlier state of the document `v` (plain data, tuples for lists) from which in-place updates of the kind a
+    host makes - keys added / changed / deleted, elements appended / replaced / popped, at any depth - lead to `v`.
+    Keys and elements are only missing at the END, so that re-adding them restores the order of `v`."""
+    if isinstance(v, dict):
+        keys = list(v)
+        cut = max(len(keys) - rng.choice((0, 0, 1, 2)), 0)
+        out = {k: (earlier(rng, v[k]) if rng.random() < 0.6 else v[k]) for k in keys[:cut]}
+        if rng.random() < 0.15:
+            out['gone'] = rng.choice((0, 'x', (1, 2)))           # a key the host deletes later
+        return out
+    if isinstance(v, tuple):
+        cut = max(len(v) - rng.choice((0, 0, 1, 2)), 0)
+        out = [(earlier(rng, x) if rng.random() < 0.6 else x) for x in v[:cut]]
+        if rng.random() < 0.15:
+            out.append(rng.choice((0, 'x', None)))               # an element the host pops later
+        return tuple(out)
+    if isinstance(v, bool):
+        return not v
+    if isinstance(v, int):
+        return v + rng.choice((1, 3, -2))
+    if isinstance(v, str):
+        return rng.choice((v + 'x', '', 7))
+    return rng.choice((0, None, 'was'))
+
+
+def _container_kind(x):
+    return 'd' if isinstance(x, dict) else 'l' if isinstance(x, (list, tuple)) else None
+
+
+def mutate_into(host, target):
+    """update the host's containers IN PLACE (same objects, at every depth where the kind of container stays) until they
+    hold `target`"""
+    if isinstance(host, dict):
+        for k in [k for k in host if k not in target]:
+            del host[k]
+        for k, tv in target.items():
+            if k in host and _container_kind(host[k]) and _container_kind(host[k]) == _container_kind(tv):
+                mutate_into(host[k], tv)
+            else:
+                host[k] = evalgen.to_host(tv)
+    else:
+        del host[len(target):]
+        for i, tv in enumerate(target):
+            if i < len(host) and _container_kind(host[i]) and _container_kind(host[i]) == _container_kind(tv):
+                mutate_into(host[i], tv)
+            elif i < len(host):
+                host[i] = evalgen.to_host(tv)
+            else:
+                host.append(evalgen.to_host(tv))
+
+
+def _ordered(v):
+    if isinstance(v, dict):
+        return ('d', [(k, _ordered(x)) for k, x in v.items()])
+    if isinstance(v, (list, tuple)):
+        return ('l', [_ordered(x) for x in v])
+    return (type(v).__name__, v)
+
+
+REUSE_MODES = ('single', 'single', 'single', 'single', 'single', 'statement-on-another-document',
+               'statement-on-another-document', 'same-document-mutated/same-statement',
+               'same-document-mutated/fresh-statement', 'same-document-mutated-twice/same-statement')
+
+
+FORCE_SINGLE = False
+
+
+def reuse_mode(text):
+    if FORCE_SINGLE:
+        return 'single'
+    return REUSE_MODES[zlib.crc32(text.encode('utf8')) % len(REUSE_MODES)]
+
+
 def run_real_once(text, doc, timeout):
+    """the result of the LAST evaluation of a short history on one engine; what it has to be is the meaning of `text` on
+    the contents the document has at that time (= `doc`)"""
+    import random
     eng, root = engine()
+    mode = reuse_mode(text) if isinstance(doc, dict) else 'single'
+
+    def attempt(st, data):
+        try:
+            st.evaluate(data=data, context=root.create_child_context())
+        except Timeout:
+            raise
+        except Exception:       # noqa - the other / earlier document may not fit the program
+            pass
     try:
         st = eng(text)
         signal.signal(signal.SIGALRM, _alarm)
         signal.setitimer(signal.ITIMER_REAL, timeout)
         try:
-            if zlib.crc32(text.encode('utf8')) & 1:
-                # a parsed statement is reusable: every second text is first evaluated on ANOTHER document of the same
-                # shape, and what is compared is the result of the later evaluation of the same Statement object
-                try:
-                    st.evaluate(data=perturb(evalgen.to_host(doc)), context=root.create_child_context())
-                except Timeout:
-                    raise
-                except Exception:       # noqa - the other document may not fit the program
-                    pass
-            return plain_result(st.evaluate(data=evalgen.to_host(doc), context=root.create_child_context()))
+            if mode == 'statement-on-another-document':
+                # a parsed statement is reusable: it is first evaluated on ANOTHER document of the same shape, and what
+                # is compared is the result of the later evaluation of the same Statement object
+                attempt(st, perturb(evalgen.to_host(doc)))
+                host = evalgen.to_host(doc)
+            elif mode.startswith('same-document-mutated'):
+                # the host keeps ONE document object: evaluates, updates it in place, evaluates again
+                rng = random.Random(zlib.crc32((text + repr(doc)).encode('utf8')))
+                stages = [earlier(rng, doc)]
+                if 'twice' in mode:
+                    stages.insert(0, earlier(rng, stages[0]))
+                host = evalgen.to_host(stages[0])
+                attempt(st, host)
+                for nxt in stages[1:] + [doc]:
+                    mutate_into(host, nxt)
+                    if nxt is not doc:
+                        attempt(st, host)
+                if _ordered(host) != _ordered(doc):
+                    raise RuntimeError('mutate_into did not reach the document: %r vs %r' % (host, doc))
+                if 'fresh' in mode:
+                    st = eng(text)
+            else:
+                host = evalgen.to_host(doc)
+            return plain_result(st.evaluate(data=host, context=root.create_child_context()))
         finally:
             signal.setitimer(signal.ITIMER_REAL, 0)
     except Timeout:
         return ('err', 'Timeout')
     except RecursionError:
         return ('err', 'RecursionError')
+    except RuntimeError as e:
+        if 'mutate_into' in str(e):
+            raise
+        return ('err', type(e).__name__)
     except Exception as e:
         return ('err', type(e).__name__)
 
@@ -233,24 +347,72 @@ def show(r):
     return 'out-of-domain'
 
 
+KNOWN_DEF = 'def-name-translated'
+
+
+def translated_def_names(ast):
+    """names given to def() in the program that the registration code rewrites (specs.convert_function_name under the
+    context's CamelCaseConvention) although the call site looks the name up as written"""
+    out = []
+
+    def walk(e):
+        if e[0] == 'call' and evalref.fn_key(e[1]) == 'def' and e[2] and e[2][0][0] in ('kw', 'lit') and \
+                isinstance(e[2][0][1], str):
+            n = e[2][0][1]
+            try:
+                if evalref.fn_key_as_implemented(n) != evalref.fn_key(n):
+                    out.append(n)
+            except IndexError:
+                out.append(n)
+        for c, _ in evalgen.children(e):
+            walk(c)
+    walk(ast)
+    return out
+
+
+def known_tag(ast, doc, real):
+    """the known finding `def-name-translated`: the program def-ines a function under a name the registration rewrites
+    AND the real result is exactly what the documented meaning gives once that one rewriting is put into it"""
+    names = translated_def_names(ast)
+    if names and same(real, evalref.run(to_ref(doc), ast, def_as_implemented=True)):
+        return KNOWN_DEF
+    return None
+
+
 def evaluate_case(ast, doc, model):
-    """-> (failure or None, info); failure = (kind, what)"""
+    """-> (failure or None, info); failure = (kind, what, tag); tag = key of a known finding that explains it, or None"""
     text = evalgen.render(ast)
     real = run_real(text, doc)
     ref = run_ref(doc, ast)
     a_ref, a_mod = agree(real, ref), agree(real, model)
-    info = dict(text=text, real=real, ref=ref, model=model)
+    info = dict(text=text, real=real, ref=ref, model=model, mode=reuse_mode(text) if isinstance(doc, dict) else 'single')
     if real[0] == 'err' and real[1] in ('RecursionError', 'MemoryError'):
         return None, info                  # a limit of the host interpreter, not a meaning
     where = '%s on %s' % (text, json.dumps(evalgen.to_host(doc), sort_keys=True))
+    if info['mode'] != 'single':
+        where += ' [history: %s; the LAST result is compared]' % info['mode']
     if a_ref is False and a_mod is not True:
-        return ('oracle', '%s: real %s, reference %s (model: %s)' % (where, show(real), show(ref), show(model))), info
+        tag = known_tag(ast, doc, real)
+        extra = ''
+        if tag:
+            extra = (' || def() registers the name %r rewritten by the naming convention (%r); called as written it is '
+                     'unknown' % (translated_def_names(ast)[0], _as_impl(translated_def_names(ast)[0])))
+        return ('oracle', '%s: real %s, reference %s (model: %s)%s' % (where, show(real), show(ref), show(model), extra),
+                tag), info
     if a_ref is False:
         return ('mismatch', '%s: the transcription gives %s but real and model agree on %s' % (
-            where, show(ref), show(real))), info
+            where, show(ref), show(real)), None), info
     if a_mod is False:
-        return ('mismatch', '%s: real %s, model %s (transcription: %s)' % (where, show(real), show(model), show(ref))), info
+        return ('mismatch', '%s: real %s, model %s (transcription: %s)' % (where, show(real), show(model), show(ref)),
+                None), info
     return None, info
+
+
+def _as_impl(name):
+    try:
+        return evalref.fn_key_as_implemented(name)
+    except IndexError:
+        return 'IndexError'
 
 
 # ------------------------------------------------------------------ scoping facts (probes on the real engine)
@@ -319,14 +481,18 @@ def scoping_facts():
 
 # ------------------------------------------------------------------ shrinking
 
-def fails(ast, doc, drv, kind):
+def fails(ast, doc, drv, kind, tag=None, mode=None):
+    """the failure of this (smaller) case if it is of the same kind, explained by the same known finding (or by none)
+    and found under the same evaluation history"""
     try:
-        evalgen.render(ast)
+        text = evalgen.render(ast)
+        if mode is not None and not (isinstance(doc, dict) and reuse_mode(text).startswith(mode)):
+            return None
         m = ask_model(drv, [(ast, doc)])[0]
         f, _ = evaluate_case(ast, doc, m)
     except Exception:
         return None
-    return f if f and f[0] == kind else None
+    return f if f and f[0] == kind and f[2] == tag else None
 
 
 def shrink_doc_candidates(doc):
@@ -345,7 +511,7 @@ def shrink_doc_candidates(doc):
     return out
 
 
-def shrink(ast, doc, drv, kind, budget=400):
+def shrink(ast, doc, drv, kind, tag=None, mode=None, budget=400):
     changed = True
     while changed and budget > 0:
         changed = False
@@ -355,7 +521,7 @@ def shrink(ast, doc, drv, kind, budget=400):
             budget -= 1
             if budget <= 0:
                 break
-            if fails(cand, doc, drv, kind):
+            if fails(cand, doc, drv, kind, tag, mode):
                 ast, changed = cand, True
                 break
         if changed:
@@ -364,7 +530,7 @@ def shrink(ast, doc, drv, kind, budget=400):
             budget -= 1
             if budget <= 0:
                 break
-            if fails(ast, cand, drv, kind):
+            if fails(ast, cand, drv, kind, tag, mode):
                 doc, changed = cand, True
                 break
     return ast, doc
@@ -384,15 +550,31 @@ def replay_of(ast, doc, facts=None):
 
 def report(ast, doc, drv, f):
     """shrink, re-evaluate, describe"""
-    sast, sdoc = shrink(ast, doc, drv, f[0])
-    g = fails(sast, sdoc, drv, f[0]) or f
+    # a failure that needs an evaluation history (the text decides which) is shrunk among texts with the same history
+    mode = reuse_mode(evalgen.render(ast))
+    keep = None
+    if mode != 'single' and not run_single(ast, doc, drv, f):
+        keep = mode.split('/')[0].replace('-twice', '')          # the failure needs this kind of history
+    sast, sdoc = shrink(ast, doc, drv, f[0], f[2], keep)
+    g = fails(sast, sdoc, drv, f[0], f[2], keep) or f
     facts = None
     what = g[1]
-    if g[0] == 'oracle':
+    if g[0] == 'oracle' and not g[2]:
         facts = scoping_facts()
         if facts:
             what += ' || scoping facts of the statement broken on this engine: ' + '; '.join(facts[:4])
-    return (g[0], failure_key(sast), what, replay_of(sast, sdoc, facts))
+    return (g[0], g[2] or failure_key(sast), what, replay_of(sast, sdoc, facts))
+
+
+def run_single(ast, doc, drv, f):
+    """does the case fail also as ONE plain evaluation (then the history is irrelevant and shrinking may change it)"""
+    global FORCE_SINGLE
+    FORCE_SINGLE = True
+    try:
+        g = fails(ast, doc, drv, f[0], f[2], None)
+    finally:
+        FORCE_SINGLE = False
+    return g is not None
 
 
 # ------------------------------------------------------------------ worker
@@ -406,7 +588,7 @@ def work(args):
     rng = common.make_rng(seed, 'C04/%d' % idx)
     drv = common.Driver() if use_model else None
     out = dict(cases=[], failures=[], n=0, traces=0, outcome={}, errs={}, depth={}, size={}, types={}, constructs={},
-               pairs={}, ood_ref=0, ood_model=0, parse_diff=[], sample=None)
+               pairs={}, ood_ref=0, ood_model=0, parse_diff=[], sample=None, modes={}, names={}, known={})
     try:
         batch = []
         for _ in range(n_cases):
@@ -443,7 +625,14 @@ def work(args):
             if out['sample'] is None and real[0] == 'ok' and evalgen.size(ast) > 8:
                 out['sample'] = dict(text=text, doc=json.dumps(evalgen.to_host(doc), sort_keys=True)[:200],
                                      real=show(real)[:200])
-            if f and len(out['failures']) < 2:
+            bump(out['modes'], info['mode'])
+            for cls in evalgen.name_classes(ast):
+                bump(out['names'], cls)
+            if f and f[2]:
+                bump(out['known'], f[2])
+                if not any(k == f[2] for _, k, _, _ in out['failures']):
+                    out['failures'].append(report(ast, doc, drv, f))   # one (shrunk) instance of a known finding
+            elif f and sum(1 for _, k, _, _ in out['failures'] if k != KNOWN_DEF) < 2:
                 out['failures'].append(report(ast, doc, drv, f))
     finally:
         if drv:
@@ -468,7 +657,7 @@ def fixed_battery(drv, res):
         if f:
             facts = scoping_facts() if f[0] == 'oracle' else None
             what = f[1] + (' || scoping fact: ' + fact if f[0] == 'oracle' and (fact, text, expected) in PROBES else '')
-            res.fail(f[0], failure_key(ast), what, replay_of(ast, {}, facts))
+            res.fail(f[0], f[2] or failure_key(ast), what, replay_of(ast, {}, facts))
     return n
 
 
@@ -479,8 +668,11 @@ def run(env, res):
     res.rule = ('type-directed programs of the fragment (generator depth <= 4 quick / <= 6 thorough) over a random JSON-like '
                 'document bound to `$`: 25% scoping scenarios with random parts, 20% lists of independent expressions, the '
                 'rest typed expressions; every binding construct is followed by uses of what it bound and by reads of names '
-                'bound elsewhere; distinct = distinct (text, document); non-trivial = the real evaluation returns a value '
-                'and at least one reference makes a prediction')
+                'bound elsewhere and of RELATIVES of bound names (snake/camel, trailing / leading underscore, case, digits); '
+                'names of variables / keywords / functions / keys from adversarial pools; 50% single evaluations, 20% a reused '
+                'Statement after another document, 30% the same host document object mutated in place between evaluations '
+                '(same / fresh Statement); distinct = distinct (text, document); non-trivial = the real evaluation returns '
+                'a value and at least one reference makes a prediction')
     if env['replay']:
         rp = json.load(open(env['replay']))
         case = rp['case']
@@ -491,7 +683,7 @@ def run(env, res):
         res.traces += 1 if use_model else 0
         if f:
             facts = scoping_facts() if f[0] == 'oracle' else None
-            res.fail(f[0], failure_key(ast), f[1], replay_of(ast, doc, facts))
+            res.fail(f[0], f[2] or failure_key(ast), f[1], replay_of(ast, doc, facts))
         return res
     t0 = time.time()
     n_probe = fixed_battery(drv, res)
@@ -502,7 +694,8 @@ def run(env, res):
     jobs = [(i, per, env['seed'], depth, use_model) for i in range(nproc)]
     with multiprocessing.Pool(nproc) as pool:
         results = pool.map(work, jobs, chunksize=1)
-    hist = dict(outcome={}, real_error_classes={}, ast_depth={}, ast_size={}, result_types={}, constructs={})
+    hist = dict(outcome={}, real_error_classes={}, ast_depth={}, ast_size={}, result_types={}, constructs={},
+                evaluation_history={}, names_by_class={}, known_finding_hits={})
     pairs, ood_ref, ood_model, n, parse_diff = {}, 0, 0, 0, []
     for out in results:
         for sig, nt in out['cases']:
@@ -518,7 +711,9 @@ def run(env, res):
             res.fail(kind, key, what, replay)
         for src, dst in ((out['outcome'], hist['outcome']), (out['errs'], hist['real_error_classes']),
                          (out['depth'], hist['ast_depth']), (out['size'], hist['ast_size']),
-                         (out['types'], hist['result_types']), (out['constructs'], hist['constructs']), (out['pairs'], pairs)):
+                         (out['types'], hist['result_types']), (out['constructs'], hist['constructs']), (out['pairs'], pairs),
+                         (out['modes'], hist['evaluation_history']), (out['names'], hist['names_by_class']),
+                         (out['known'], hist['known_finding_hits'])):
             for k, v in src.items():
                 dst[str(k)] = dst.get(str(k), 0) + v
     if parse_diff:
@@ -546,10 +741,14 @@ LEVEL_TEXT = ('Lean 4 theorems, for ALL expressions, contexts, documents and fue
               'sibling_independence, no_leak_*), lookup returns the nearest binding, unknown names are null, `$`/`$1`/empty name '
               'are one variable, `$k` inside a lambda body is the k-th argument of the innermost application whatever is bound '
               'outside, a def-ined function called from any later context gives the result it gives where it was defined, '
-              '`coll.name` = `coll.select($.name)`, more fuel never changes a definite outcome.  The interpreter is tied to the '
+              '`coll.name` = `coll.select($.name)`, more fuel never changes a definite outcome; names are data '
+              '(let_names_verbatim, kwarg_names_verbatim, def_names_verbatim: for ALL names, a let / keyword argument / def is '
+              'visible exactly under its own normal form - `$`-prefix and `$`=`$1` for variables, trailing underscores for '
+              'functions - and invisible to every other name).  The interpreter is tied to the '
               'code by running generated programs (typed generator, scoping scenarios, reads of names bound elsewhere) on the '
               'real engine, on the compiled model and on an independent plain-Python transcription, comparing finalised results / '
-              'exception classes three ways.')
+              'exception classes three ways; names come from pools a normalisation would rewrite, and half of the programs are '
+              'the last step of an evaluation history on one engine (reused Statement, host document mutated in place).')
 LEVEL_NOTE = ('trusted: Lean kernel; the hand-written interpreter Yaql/Model/Eval.lean (reusing the value semantics of Model/Seq.lean '
               'and the name normalisation of Model/Context.lean); harness/evalref.py; the renderer (every text is parsed back by '
               'the engine under test and compared with the AST).  "frame" holds by construction of the representation (contexts '
